@@ -133,6 +133,56 @@ type symFrame struct {
 	ret  *sym
 }
 
+// setChain stores v at the field chain inside the struct symbol base (whose field map is shared with every copy of the
+// symbol, so the update is seen through the local variable). Intermediate structs that the literal did not mention are
+// created empty; array elements are not supported.
+func setChain(info *types.Info, lhs ast.Expr, base sym, parts []string, v sym) bool {
+	// types of the intermediate selectors, outermost last
+	var sels []ast.Expr
+	for e := lhs; ; {
+		switch x := e.(type) {
+		case *ast.ParenExpr:
+			e = x.X
+			continue
+		case *ast.StarExpr:
+			e = x.X
+			continue
+		case *ast.SelectorExpr:
+			sels = append([]ast.Expr{x}, sels...)
+			e = x.X
+			continue
+		}
+		break
+	}
+	cur := base
+	for i, part := range parts {
+		if strings.HasPrefix(part, "[") || cur.kind != sStruct || cur.fields == nil {
+			return false
+		}
+		if i == len(parts)-1 {
+			cur.fields[part] = v
+			return true
+		}
+		next, ok := cur.fields[part]
+		if !ok || next.kind != sStruct || next.fields == nil {
+			var t types.Type
+			if i < len(sels) {
+				t = info.TypeOf(sels[i])
+			}
+			if t == nil {
+				return false
+			}
+			if _, isStruct := t.Underlying().(*types.Struct); !isStruct {
+				return false
+			}
+			next = sym{kind: sStruct, typ: t, fields: map[string]sym{}}
+			cur.fields[part] = next
+		}
+		cur = next
+	}
+	return false
+}
+
 // run evaluates a function body and returns its (first) result.
 func (x *symExec) run(fn *types.Func, args map[types.Object]sym) sym {
 	decl, pkg := x.prog.FuncDecl(fn)
@@ -185,6 +235,17 @@ func (x *symExec) exec(fr *symFrame, list []ast.Stmt) {
 						}
 						if obj != nil {
 							fr.env[obj] = x.eval(fr, s.Rhs[i])
+						}
+						continue
+					}
+					// resp.Header.CommandID = v on a local that holds a struct built in this function
+					if root, chain, ok := rootedChain(fr.info, l); ok && root != x.recv {
+						if base, has := fr.env[root]; has && base.kind == sStruct && chain != "" {
+							v := x.eval(fr, s.Rhs[i])
+							if !setChain(fr.info, l, base, splitChain(chain), v) {
+								x.undecided = "assignment to " + types.ExprString(l) + " not followed"
+							}
+							continue
 						}
 					}
 				}
